@@ -354,6 +354,7 @@ def c20(tier, seed):
 
 
 ALL_FIBER_FAMS = ["fam_core", "fam_exec", "fam_when", "fam_wait", "fam_shared", "fam_wg", "fam_cmutex", "fam_coro"]
+HB_FAMS = ALL_FIBER_FAMS  # families whose payload words are annotated for the happens-before monitor
 
 
 def c03(tier, seed):
@@ -391,6 +392,13 @@ def c04(tier, seed):
         if res.harness_error:
             break
         driver.run_family(res, "C04", fam, "thr-tsan", per, seed, tier, propfilter=False)
+    # happens-before monitor on fiber schedules (vector clocks over the YACLIB_VERIF synchronization trace)
+    for fam in HB_FAMS:
+        if res.harness_error:
+            break
+        driver.run_family(res, "C04", fam, "fib-asan", 25000 if q else 1500000, seed, tier, propfilter=False)
+    if not res.harness_error and res.hb_checks == 0:
+        res.harness_error = "the happens-before monitor checked no plain access (sync hook not compiled in?)"
     if not q:
         for fam in ALL_FIBER_FAMS:
             if res.harness_error:
@@ -402,10 +410,18 @@ def c04(tier, seed):
             "library operation and the observer reads it immediately on observing completion; monitors use relaxed atomics only, "
             "so the library's own edge is the only happens-before path. Deciding oracle: ThreadSanitizer report blocks "
             "(__tsan_on_report), attributed to the case and keyed by the first library frame; distinct = distinct client-visible "
-            "observation hashes per cell; non-trivial = the racing calls overlapped in logical time.")
+            "observation hashes per cell; non-trivial = the racing calls overlapped in logical time. "
+            "Second engine (fib-asan rows): the same scenarios on seeded fiber schedules with the happens-before monitor "
+            "(harness/vf_hb.hpp): the fiber backend reports every atomic operation with its std::memory_order, every fence, mutex "
+            "acquire/release and thread start/exit/join through the YACLIB_VERIF sync hook; the monitor keeps vector clocks per "
+            "fiber and release clocks per object exactly as the C++ memory model defines synchronizes-with (release sequences, "
+            "fences) and checks each annotated plain access (the payload words) for two conflicting accesses not ordered by "
+            "happens-before (oracle hb-race@<word>). This decides the visibility clauses on every explored schedule, including "
+            "rare paths, and covers the fence-based AtomicCounter::SubEqual branch that the TSan build does not compile.")
     return driver.finish("C04", tier, seed, "exploration", res, rule,
                          ["ThreadSanitizer observes executions on x86-TSO: non-SC outcomes of the atomics themselves are out of reach",
-                          "under -fsanitize=thread the library compiles the acq_rel branch of AtomicCounter::SubEqual (YACLIB_TSAN); the fence-based production branch is not observed",
+                          "the happens-before monitor checks the annotated payload words only (not every library-internal plain field) and, wherever the standard leaves a choice, assumes more happens-before rather than less (C++11 release-sequence rule, seq_cst = acq_rel, consume = acquire)",
+                          "under -fsanitize=thread the library compiles the acq_rel branch of AtomicCounter::SubEqual (YACLIB_TSAN); the fence-based production branch is observed by the happens-before monitor only",
                           "libstdc++'s exception_ptr reference count is not instrumented: reports whose stack contains exception_ptr::_M_release/_M_addref are suppressed",
                           "AtomicEvent (src/util/atomic_event.cpp) is dead code in every configuration (YACLIB_FUTEX is hard-set to 0)"],
                          min_distinct=500, t_start=t0)
